@@ -44,7 +44,8 @@ def strategy():
       # positions after which a sqlfile-backed servicer is closed and a new one
       # opened on the same file (clean restart)
       'restarts': st.lists(st.integers(0, 39), max_size=3),
-      'ops': histories.history_strategy(min_ops=8, max_ops=40),
+      'ops': histories.history_strategy(min_ops=8, max_ops=40,
+                                        bad_names=True),
   })
 
 
@@ -137,6 +138,8 @@ def check(case):
     if use_ctx:
       out.cls('with_grpc_context')
     out.cls(case['backend'])
+    if 'bad_name' in kinds:
+      out.cls('malformed_name')
     if rejected:
       out.cls('rejected_mutation')
     if touched_completed:
@@ -161,5 +164,5 @@ def families(tier):
                                     'rejected_mutation',
                                     'completed_trial_touched_again',
                                     'has_delete_study', 'has_update_md',
-                                    'has_set_state')),
+                                    'has_set_state', 'malformed_name')),
   ]
